@@ -3,6 +3,7 @@ import itertools
 import warnings
 
 import numpy as np
+import pandas as pd
 
 from fmc import frames
 
@@ -107,7 +108,10 @@ def base_rows():
 
 
 def unseen_value(var, i):
-    return 900 + i if var == "k" else f"NEW{i}"
+    if var == "k":
+        return 900 + i
+    first = sorted(set(train()[var]))[0]
+    return [f"NEW{i}", first + "x" * (i + 1), first + "0"][i % 3]  # also values that merely extend a training level
 
 
 def placements(vars_, tier="quick"):
@@ -127,7 +131,7 @@ def placements(vars_, tier="quick"):
 IDX = [7, 2, 5, 11]
 
 
-def make_frames(pl, reindex=False):
+def make_frames(pl, reindex=False, catdtype=False):
     nd = base_rows().copy()
     if reindex:  # new data that was filtered / sorted: labels are not 0..n-1
         nd.index = IDX[: len(nd)]
@@ -137,6 +141,11 @@ def make_frames(pl, reindex=False):
         for i in rows:
             col.iloc[i] = unseen_value(v, i)
         nd[v] = col if v != "k" else col.astype(int)
+    if catdtype:  # the new data stores its factors as pandas categoricals (categories: training levels + the unseen values)
+        for v in pl:
+            cats = list(dict.fromkeys(sorted(set(train()[v])) + list(nd[v])))
+            nd[v] = pd.Categorical(nd[v], categories=cats)
+            clean[v] = pd.Categorical(clean[v], categories=cats)
     return nd, clean
 
 
@@ -211,8 +220,8 @@ def check_placement(case, acc):
     used = sorted(atoms_of(d.split("~")[1]) & CATVARS)
     problems = {}
     n = 0
-    for pl, reindex in [(p_, r_) for p_ in placements(used) for r_ in (False, True)]:
-        nd, clean = make_frames(pl, reindex)
+    for pl, reindex, catd in [(p_, r_, c_) for p_ in placements(used) for r_, c_ in ((False, False), (True, False), (False, True))]:
+        nd, clean = make_frames(pl, reindex, catd)
         common_vars = set()
         if dm.common is not None:
             for name in dm.common.terms:
@@ -233,7 +242,7 @@ def check_placement(case, acc):
                 out, exc, ours = run_eval(dm.common, nd)
                 acc.calls += 2
                 acc.traces += 1
-                tag = f"{d!r} mode={mode} unseen={pl}" + (" (frame index " + str(IDX[: len(nd)]) + ")" if reindex else "")
+                tag = f"{d!r} mode={mode} unseen={pl}" + (" (frame index " + str(IDX[: len(nd)]) + ")" if reindex else "") + (" (categorical dtype)" if catd else "")
                 if mode == "error" and hit:
                     if exc is None:
                         problems.setdefault(("error-raises", "no-exception"), f"{tag}: common evaluation did not raise")
